@@ -2,6 +2,7 @@ import AdaVerif.Lemmas.ParseInv
 import AdaVerif.Lemmas.Guard
 import AdaVerif.Lemmas.AggSetters
 import AdaVerif.Lemmas.UrlSetters
+import AdaVerif.Lemmas.AggSetPathname
 /-
 C03 — Setters implement the Standard's API setters and fail atomically.
 
@@ -168,6 +169,17 @@ theorem aggregator_set_protocol_end_to_end (L : Nat) (u : Url) (s : Bytes) (hinv
     · exact h.1.1.1
   exact AdaVerif.Lemmas.AggL.setProtocolCore_end_to_end L u s (AdaVerif.Lemmas.AggL.credOk_of_recInv u hinv) hsch hfile
 
+/-- ... and the pathname setter of the single buffer: `clear_pathname`, `parse_path` (`update_base_pathname("/")` or
+    `consume_prepared_path` with its in-place shortcut), the "/." fix-up for a path that begins with "//" and has no
+    authority in front, the limit check with roll-back -/
+theorem aggregator_set_pathname_end_to_end (L ty : Nat) (u : Url) (v : Bytes) (hinv : RecInv u = true) (hty : PP.TyOf u.scheme ty) :
+    AdaVerif.Model.Agg.setPathnameM L ty u.isSpecial (AdaVerif.Model.Agg.layout (AdaVerif.Lemmas.AggL.ofUrl u)) v =
+      if u.isOpaque then (AdaVerif.Model.Agg.layout (AdaVerif.Lemmas.AggL.ofUrl u), false)
+      else if (AdaVerif.Model.Agg.layout (AdaVerif.Lemmas.AggL.ofUrl (setPathname u v))).buf.length ≤ L then
+        (AdaVerif.Model.Agg.layout (AdaVerif.Lemmas.AggL.ofUrl (setPathname u v)), true)
+      else (AdaVerif.Model.Agg.layout (AdaVerif.Lemmas.AggL.ofUrl u), false) :=
+  AdaVerif.Lemmas.AggL.setPathname_end_to_end L ty u v (AdaVerif.Lemmas.AggL.credOk_of_recInv u hinv) hty
+
 /-! ### end to end for `ada::url` (component setters)
 
 `Model/UrlSetters.lean` transcribes `url::set_username / set_password / set_port` (with `url::parse_port`),
@@ -221,6 +233,8 @@ example : (setPort { scheme := bHttps, host := some (.domain (ofStr "h")), path 
   decide +kernel
 example : (AdaVerif.Model.UrlRec.setPathnameR 100 2 (AdaVerif.Lemmas.UR.recOf { scheme := bHttps, host := some (.domain (ofStr "h")), path := [[]] })
     (ofStr "/a/../b")).1.path = ofStr "/b" := by decide +kernel
+example : (AdaVerif.Model.Agg.setPathnameM 100 1 false (AdaVerif.Model.Agg.layout (AdaVerif.Lemmas.AggL.ofUrl { scheme := ofStr "foo", path := [ofStr "a"] }))
+    (ofStr "//x")).1.buf = ofStr "foo:/.//x" := by decide +kernel
 example : (guarded List.length 3 (fun (s : List Nat) => some (0 :: s)) [1, 2, 3]) = ([1, 2, 3], false) := by decide
 
 end AdaVerif.Props.C03
